@@ -73,6 +73,28 @@ int main(int argc, char **argv)
       for (size_t k = 0; k < g.nt; k++) if (g.data[k] != g2.data[k]) { ok = false; detail = " first-diff=" + cvm::to_str(k); break; }
       std::cout << (ok ? "same" : "differ") << detail << "\n";
       cvm::clear_error();
+    } else if (cmd == "REMAP") {
+      // REMAP nd nxA.. nxB.. lowerA.. lowerB.. width.. periodic.. dataA..
+      int nd = ni();
+      std::vector<int> nxa(nd), nxb(nd);
+      for (int i = 0; i < nd; i++) nxa[i] = ni();
+      for (int i = 0; i < nd; i++) nxb[i] = ni();
+      colvar_grid<double> ga(nxa, 0.0, 1), gb(nxb, 0.0, 1);
+      for (int i = 0; i < nd; i++) ga.lower_boundaries.push_back(colvarvalue(nf()));
+      for (int i = 0; i < nd; i++) gb.lower_boundaries.push_back(colvarvalue(nf()));
+      for (int i = 0; i < nd; i++) { double wd = nf(); ga.widths.push_back(wd); gb.widths.push_back(wd); }
+      for (int i = 0; i < nd; i++) {
+        ga.upper_boundaries.push_back(colvarvalue(ga.lower_boundaries[i].real_value + nxa[i] * ga.widths[i]));
+        gb.upper_boundaries.push_back(colvarvalue(gb.lower_boundaries[i].real_value + nxb[i] * gb.widths[i]));
+      }
+      for (int i = 0; i < nd; i++) { bool per = ni() != 0; ga.periodic.push_back(per); gb.periodic.push_back(per); }
+      for (size_t k = 0; k < ga.nt; k++) ga.data[k] = nf();
+      ga.has_data = true;
+      std::ostringstream os; ga.write_multicol(os);
+      std::istringstream iss(os.str()); gb.read_multicol(iss, false);
+      for (size_t k = 0; k < gb.nt; k++) std::cout << (k ? " " : "") << vs_hex(gb.data[k]);
+      std::cout << "\n";
+      cvm::clear_error();
     } else {
       std::cout << "?\n";
     }
